@@ -246,6 +246,9 @@ def exhaustive(desc, res):
                 ops.append(["getslice", a, b])
                 for v in vals:
                     ops.append(["setslice", a, b, v])
+        for bad in ("<str>", "<float>", "<none>"):
+            ops += [["getbit", bad], ["setbit", bad, 1], ["getslice", bad, 0], ["getslice", 0, bad],
+                    ["setslice", bad, 0, 0], ["setslice", 0, bad, 1]]
         ops.append(["views"])
         ops.append(["cmp", init])
         for op in ops:
@@ -405,8 +408,20 @@ def gen_history(r, maxw=256):
             if curw + w2 <= maxw:
                 ops.append(["add", w2, r.getrandbits(w2), r.choice(["left", "right"])])
                 curw += w2
-        elif c < 0.8:
+        elif c < 0.78:
             ops.append(["badadd", r.choice([1, "<none>", "<str>", "<list>"]), r.choice(["left", "right"])])
+        elif c < 0.8:
+            # non-integer indices: a TypeError that leaves the frame alone
+            bad = r.choice(["<str>", "<float>", "<none>", "<bytes>", "<list>"])
+            k = r.random()
+            if k < 0.25:
+                ops.append(["getbit", bad])
+            elif k < 0.5:
+                ops.append(["setbit", bad, 1])
+            elif k < 0.75:
+                ops.append(["getslice"] + r.choice([[bad, 0], [top, bad], [bad, bad]]))
+            else:
+                ops.append(["setslice"] + r.choice([[bad, 0], [top, bad], [bad, bad]]) + [r.choice([0, 1])])
         elif c < 0.88:
             ops.append(["views"])
         elif c < 0.92:
